@@ -170,6 +170,14 @@ pub fn reports(r: &FilePatchApplyReport) -> String {
 
 /// Run the real code on one case; returns the canonical output and the file after all applications.
 pub fn run_case(file: &FileSpec, patches: &[PatchSpec]) -> (String, Vec<Vec<u8>>) {
+    let ps: Vec<String> = patches.iter().map(|p| p.render()).collect();
+    crate::watch::begin(format!("A|0|{}|{}", file.render(), ps.join("|")));
+    let r = run_case_unwatched(file, patches);
+    crate::watch::end();
+    r
+}
+
+fn run_case_unwatched(file: &FileSpec, patches: &[PatchSpec]) -> (String, Vec<Vec<u8>>) {
     let mut f = file.build();
     let built: Vec<TextFilePatch<'static>> = patches.iter().map(|p| p.build()).collect();
     let mut out: Vec<String> = Vec::new();
@@ -248,7 +256,9 @@ fn random_hunk(rng: &mut Rng, n: usize, alpha: usize) -> HunkSpec {
     let s = rand_lines(rng, suf, alpha);
     let d = rand_lines(rng, nd, alpha);
     let i = rand_lines(rng, ni, alpha);
-    let rl = rng.range(0, n as i64 + 3);
+    // now and then a line number from the far end of what the parser accepts (0 ..= 2^63-1): the first
+    // guess of this hunk, and through its offset that of the next one, is then far outside the file
+    let rl = if rng.chance(3) { *rng.pick(&[i64::MAX, i64::MAX - 1, 1i64 << 62, (1i64 << 62) + 1]) } else { rng.range(0, n as i64 + 3) };
     let al = match rng.below(4) { 0 => 0, 1 => 1, 2 => rng.range(0, n as i64 + 3), _ => rl };
     HunkSpec { rl, al, pre, suf,
                rem: p.iter().chain(d.iter()).chain(s.iter()).cloned().collect(),
